@@ -507,6 +507,15 @@ def pinned_reg_cases(transports):
     mk([["u1@h1", "h2", t2 + ":h3", t2 + ":u2@h4"]], l="bob")
     mk([["u1@h1", "h2"]], ls=["bob", "x_y"], l="x_y")
     mk([["u1@h1", "h2"]])
+    # 7b. user names at the limit opt.c enforces (login_name_max_len, generated): the longest legal name arrives
+    #     whole, one byte more refuses the run -- from -l and from user@
+    m = re.search(r"def MO_LOGIN_NAME_MAX : Nat := (\d+)", open(os.path.join(os.path.dirname(HARNESS), "lean", "PdshVerif", "Gen",
+                                                                         "Modopt.lean")).read())
+    lim = int(m.group(1)) if m else 256
+    for n_ in (1, 8, 9, 16, 17, 31, 32, 33, lim - 1, lim, lim + 1, lim + 40):
+        mk([["h1", "u1@h2"]], l="L" * n_)
+        mk([["W" * n_ + "@h1", "h2"]], l="bob")
+        mk([[t2 + ":" + "V" * n_ + "@h1", "u1@h1"]])
     # 8. rank = position in the list that is left after the exclusions
     six = ["n1", "n2", "n3", "n4", "n5", "n6"]
     for ex in (["n1"], ["n6"], ["n3"], ["n2", "n4"], ["n1", "n2", "n3"], ["n1", "n6"], ["n5", "n6"]):
